@@ -87,6 +87,7 @@ C10(c) == LET o == c.obs IN
 NeedsSync(o) == \E i \in DOMAIN o.mocks : o.mocks[i].ifaceSigs # <<>>
 C11(c) == LET o == c.obs
               im == o.imports IN
+    /\ o.importsOK                                                  \* the import declarations parse at all
     /\ Distinct([i \in DOMAIN im |-> im[i].path])                  \* each package once
     /\ \A i \in DOMAIN im : im[i].alias \notin {".", "_"}            \* never dot or blank
     /\ \A i \in DOMAIN im : im[i].used                               \* nothing else
